@@ -954,6 +954,12 @@ func (g cuGen) genScript() interface{} {
 	for i, k := 0, g.n(5); i < k; i++ {
 		stmts = append(stmts, g.stmt(1))
 	}
+	// scripts that hand back an EMPTY annotations / labels table (encoded as JSON null on the way back)
+	if g.p(12) {
+		stmts = append(stmts, J{"op": "clearAnns"})
+	} else if g.p(6) {
+		stmts = append(stmts, J{"op": "clearLabels"})
+	}
 	ret := "data"
 	switch g.n(25) {
 	case 0:
